@@ -342,6 +342,44 @@ def ground_spellings(ctx):
                 ok, obs = not (1 <= k <= 103), {"raised": type(ex).__name__}
             if not ok:
                 bad.append({"n": k, "how": how, "observed": obs})
+    # the vectorised helpers: every integer -300..400, alone and next to a valid number, as int64 / int32 / int16 arrays: rows of the table for 1..103, an error otherwise
+    bad_v = []
+    for fname, col in (("cov_radii", 2), ("vdw_radii", 3), ("element_names", 0), ("element_symbols", 1)):
+        f = getattr(el, fname, None)
+        if f is None:
+            continue
+        for k in range(-300, 401):
+            for dt in (np.int64, np.int32, np.int16):
+                for arr in (np.array([k], dtype=dt), np.array([6, k, 8], dtype=dt)):
+                    try:
+                        out = f(arr)
+                        ok = 1 <= k <= 103 and len(out) == len(arr) and all((abs(float(o) - float(rows[int(z_) - 1][col])) < 1e-6) if col >= 2 else (str(o) == rows[int(z_) - 1][col]) for o, z_ in zip(out, arr))
+                        obs = {"returned": [str(o) for o in out][:3]}
+                    except Exception as ex:  # noqa
+                        ok, obs = not (1 <= k <= 103), {"raised": type(ex).__name__}
+                    if not ok and len(bad_v) < 6:
+                        bad_v.append({"function": fname, "numbers": arr.tolist(), "dtype": np.dtype(dt).name, "observed": obs})
+    ctx.ground("element.vectorised_helpers/integers", not bad_v, clause="cov_radii / vdw_radii / element_names / element_symbols on int64, int32 and int16 arrays holding any integer -300..400 "
+               "(alone or between valid numbers): the table rows for 1..103, an error for everything else (no number is mapped to some other element)", detail=bad_v[:6], witness=bad_v[:3])
+    # ordering: all six comparison operators, min/max and sorted agree with the key (carbon first, then atomic number) on all 103 x 103 pairs
+    bad_o = []
+    E = [el.Element.from_atomic_number(zz) for zz in range(1, 104)]
+    okey = lambda e_: (0 if e_.atomic_number == 6 else 1, e_.atomic_number)
+    for a_ in E:
+        for b_ in E:
+            ka, kb = okey(a_), okey(b_)
+            try:
+                got = (a_ < b_, a_ <= b_, a_ > b_, a_ >= b_, a_ == b_, a_ != b_, okey(max(a_, b_)), okey(min(a_, b_)))
+            except Exception as ex:  # noqa
+                got = repr(ex)[:80]
+            want = (ka < kb, ka <= kb, ka > kb, ka >= kb, ka == kb, ka != kb, max(ka, kb), min(ka, kb))
+            if got != want and len(bad_o) < 6:
+                bad_o.append({"a": a_.symbol, "b": b_.symbol, "(<, <=, >, >=, ==, !=, max, min)": str(got), "expected": str(want)})
+    srt = [e_.atomic_number for e_ in sorted(reversed(E))]
+    if srt != [6] + [zz for zz in range(1, 104) if zz != 6]:
+        bad_o.append({"sorted": srt[:8]})
+    ctx.ground("element.Element/ordering/all_operators", not bad_o, clause="<, <=, >, >=, ==, !=, max, min on all 103 x 103 pairs and sorted() on the whole table follow the key "
+               "(carbon first, then atomic number)", detail=bad_o[:6], witness=bad_o[:3])
     ctx.ground("element.Element.__getitem__/integers", not bad, clause="all integers -200..300 (as int, via from_atomic_number, as digit string): 1..103 give that element, everything else is rejected with an error",
                detail=bad[:6], witness=bad[:3], seconds=time.time() - t0)
     bad = []
